@@ -240,6 +240,28 @@ def gen_partial_elim_profile(rng, names):
     return {"candidates": cands, "ballots": [{"r": r, "w": fs(Fraction(w))} for r, w in bs]}
 
 
+def gen_level_winners_profile(rng, names):
+    """two candidates cross the quota together on exactly equal tallies with a positive surplus, and each one's ballots name the
+    other next (A>B>X, B>A>Y): the order in which the two surpluses are processed must not matter.  m = 3."""
+    A, B, X, Y = rng.sample(names, 4)
+    rest = [c for c in names if c not in (A, B, X, Y)]
+    w = rng.randint(6, 12)
+    tot = rng.randint(2, max(2, 2 * w - 5))
+    x = rng.randint(1, tot - 1)
+    y = tot - x
+    bs = [([A, B, X] + rng.sample(rest, rng.randint(0, len(rest))), w), ([B, A, Y] + rng.sample(rest, rng.randint(0, len(rest))), w),
+          ([X] + rng.sample([Y] + rest, rng.randint(0, 1)), x), ([Y] + rng.sample([X] + rest, rng.randint(0, 1)), y)]
+    if rng.random() < 0.4:
+        # split one of the level piles into two entries (same total)
+        k = rng.randint(1, w - 1)
+        bs[0] = (bs[0][0], k)
+        bs.append(([A, B, Y], w - k))
+    rng.shuffle(bs)
+    cands = list(names)
+    rng.shuffle(cands)
+    return {"candidates": cands, "ballots": [{"r": [[c] for c in r], "w": fs(Fraction(wt))} for r, wt in bs]}
+
+
 def gen_orbit_profile(rng, names):
     """Two disjoint pairs (A,B), (C,D); every ballot comes with its images under the swaps A<->B and C<->D at the same weight, so
     A,B are level on EVERY score and so are C,D; one base ballot is led by A and one by C at the same weight, which levels all
@@ -352,6 +374,12 @@ def gen_rule_case(rng, rules=ALL_RULES, *, max_c=6, tiebreaks=TIEBREAKS, tie_bia
             cfg["m"] = 1
         cfg["quota"] = "droop"
         shape = dict(shape, law="partial-elim-tie", wfam="small", nb=len(jp["ballots"]), ghosts=0, zero_w=0, eps=False)
+    elif rule in ("STV", "SequentialRCV") and n >= 4 and transfer != "random" and rng.random() < 0.03:
+        jp = gen_level_winners_profile(rng, jp["candidates"])
+        cfg["m"] = 3
+        cfg["quota"] = "droop"
+        cfg["simultaneous"] = rng.random() < 0.8
+        shape = dict(shape, law="level-winners", wfam="small", nb=len(jp["ballots"]), ghosts=0, zero_w=0, eps=False)
     elif orbit and n >= 4 and "tiebreak" in cfg and rule != "PluralityVeto" and transfer != "random" and rng.random() < orbit:
         jp = gen_orbit_profile(rng, jp["candidates"])
         if set(tiebreaks) & {"borda", "first_place"}:
